@@ -108,6 +108,9 @@ def run(ctx, rep):
         # text also passes the instruction-fusion pass: it must move WriteText along unchanged (no merging, no rebuilding)
         from props import c09
         c09.check_only(crate, crate.one("parsing::instructions::Chunk::optimize"), rep, cfg)
+        # "under any accepted custom delimiter set": the lexer's fixed 2-byte arithmetic is right only for the sets validate() lets through
+        from props import c06
+        c06.check_delim(crate, rep, cfg)
 
 
 def _bool_sources(body, local, projs, depth=0, seen=None):
